@@ -1,7 +1,8 @@
 (* Extraction of the quote / quasiquote model for the correspondence harness.
    ExtrOcamlBasic only; numbers stay the extracted positive / N / Z. *)
-From HyV Require Import Base.Text Quote.Model.
+From HyV Require Import Base.Text Quote.Model Quote.AsModel.
 Require Extraction.
 Require Import ExtrOcamlBasic.
 Extraction "../extract/quote_model.ml"
-  render run_quote qq_ref qq_ref_p qq_valid qq_rejected is_top_splice wf wf_ctor as_model inj.
+  render run_quote qq_ref qq_ref_p qq_valid qq_rejected is_top_splice wf wf_ctor as_model inj
+  plain cnorm model_of eval as_model_h run_history.
